@@ -34,6 +34,15 @@ def handle(op, a):
         return "ok"
     if op == "contains":
         return "1" if SpecifierSet(a[0]).contains(Version(a[1])) else "0"
+    if op == "containsm":
+        ss = SpecifierSet(a[0])
+        out = ""
+        for v in a[1:]:
+            try:
+                out += "1" if ss.contains(Version(v)) else "0"
+            except InvalidVersion:
+                out += "x"
+        return out or "-"
     if op == "containspre":
         return "1" if SpecifierSet(a[0]).contains(Version(a[1]), prereleases=True) else "0"
     if op == "filter":
